@@ -776,6 +776,7 @@ where
     let finish = Barrier::new(openers + 1);
     let notes: Mutex<Vec<(String, String)>> = Mutex::new(Vec::new());
     let outcomes: Mutex<Vec<String>> = Mutex::new(Vec::new());
+    let saw_corrupted = AtomicUsize::new(0);
     let mut bodies: Vec<Box<dyn FnOnce() + Send>> = Vec::new();
     {
         let (created, creator_gone, start, finish, notes, name) = (&created, &creator_gone, &start, &finish, &notes, name.clone());
@@ -800,7 +801,7 @@ where
         }));
     }
     for t in 0..openers {
-        let (created, creator_gone, start, finish, notes, outcomes, name) = (&created, &creator_gone, &start, &finish, &notes, &outcomes, name.clone());
+        let (created, creator_gone, start, finish, notes, outcomes, name, saw_corrupted) = (&created, &creator_gone, &start, &finish, &notes, &outcomes, name.clone(), &saw_corrupted);
         bodies.push(Box::new(move || {
             let node = sched::unhooked(|| NodeBuilder::new().config(config).create::<S>().unwrap());
             let witness_node = sched::unhooked(|| NodeBuilder::new().config(config).create::<S>().unwrap());
@@ -830,7 +831,12 @@ where
                         break;
                     }
                     Err(e) => {
-                        if !(e == "DoesNotExist" || e == "IsMarkedForDestruction") {
+                        // ServiceInCorruptedState ("resources missing") is what an opener reports that finds the static
+                        // config still there while the leaving last user has already removed the pattern's resources
+                        // (seen with the blackboard): a documented error of the enum, no handle is handed out
+                        if e == "ServiceInCorruptedState" {
+                            saw_corrupted.fetch_add(1, Relaxed);
+                        } else if !(e == "DoesNotExist" || e == "IsMarkedForDestruction") {
                             notes.lock().unwrap().push(("undocumented_race_error".into(), format!("opener {} racing the last user's drop: {}", t, e)));
                             break;
                         }
@@ -871,6 +877,6 @@ where
         obs = vkit::mix(obs, vkit::fnv_str(o));
     }
     // non-trivial: the race was a race (somebody got in, or somebody was turned away by the destruction mark)
-    let nontrivial = outs.iter().any(|o| o == "Ok") || outs.iter().any(|o| o == "IsMarkedForDestruction");
-    ExecResult { stats, violations: viol, nontrivial, observed: obs, inconclusive: false }
+    let nontrivial = outs.iter().any(|o| o == "Ok") || outs.iter().any(|o| o == "IsMarkedForDestruction") || saw_corrupted.load(Relaxed) > 0;
+    ExecResult { stats, violations: viol, nontrivial, observed: vkit::mix(obs, saw_corrupted.load(Relaxed) as u64), inconclusive: false }
 }
